@@ -274,6 +274,9 @@ class RGen:
         branches = []
         reuse_local = self.gen >= 2 and t.pick(3) == 0
         reuse_tag = self.n
+        # version 4: in a third of the If nodes BOTH branches own an initializer of one and the same name
+        force_init = self.gen >= 4 and t.pick(3) == 0
+        shared_bname = ["bias", "w_sub"][t.pick(2)] if force_init else None
         for br in ("then", "else"):
             binits = []
             if self.gen >= 3 and t.pick(6) == 0:
@@ -292,18 +295,17 @@ class RGen:
                 src = self.pick_kind(pool, "F23")
                 if self.gen >= 3:
                     # ... preferably one that an outer node computes (its type is not declared anywhere in the proto)
-                    computed = [v for v, k in pool if k == "F23" and not v.startswith(("x", "w", "val_w"))]
+                    computed = [v for v, k in pool if k == "F23" and not v.startswith(("x", "w", "val_w", "bias_"))]
                     if computed and t.pick(3):
                         src = computed[t.pick(len(computed))]
                         self.features.add("identity_of_captured_computed_value")
                 res = self.fresh("br")
                 bn.append(oh.make_node("Identity", [src], [res], name=self.nname("Identity")))
                 self.features.add("identity_of_captured_value")
-            if t.flag("subgraph_initializer", 3):
+            if force_init or t.flag("subgraph_initializer", 3):
                 # sibling subgraphs use the same initializer name on purpose (they collide when lifted to the main graph)
-                # (version 4 also uses "w": lifted to the main graph it collides with a main-graph initializer, and the
-                # usual way out - "w_1" - is taken there as well)
-                bname = ["bias", "w_sub", "w", "w"][t.pick(4)] if self.gen >= 4 else ["bias", "w_sub"][t.pick(2)]
+                bname = shared_bname if force_init else ["bias", "w_sub"][t.pick(2)]
+                self.features.add("subgraph_initializer")
                 binits.append(nph.from_array(np.array([[0.5, 1, 2], [3, 4, 5]], dtype=np.float32) * (1 + t.pick(2)), name=bname))
                 res2 = self.fresh("bi")
                 bn.append(oh.make_node("Add", [res, bname], [res2], name=self.nname("Add")))
@@ -480,7 +482,12 @@ class RGen:
                 np.array([0.1, 0.2, 0.3], dtype=np.float32), np.array(1.5, dtype=np.float32), np.array([1.0, 2.0, 3.0], dtype=np.float32)]
         for i in range(2 + t.pick(5)):
             arr = base[t.pick(len(base))]  # few distinct payloads -> duplicate initializers are common
-            name = ["w", "w_1", f"w{i}", f"val_w{i}"][t.pick(4)]
+            if self.gen >= 4:
+                # version 4: main-graph names that look like what a pass generates when it has to rename a lifted
+                # subgraph initializer ("bias" -> "bias_1")
+                name = ["w", "w_1", f"w{i}", f"val_w{i}", "bias_1", "w_sub_1"][t.pick(6)]
+            else:
+                name = ["w", "w_1", f"w{i}", f"val_w{i}"][t.pick(4)]
             if any(name == x.name for x in inits):
                 name = f"w{i}_{self.n}"
             inits.append(nph.from_array(arr, name=name))
